@@ -171,7 +171,7 @@ CLAIMED["C26"] = dict(
     technique=TECH)
 CLAIMED["C28"] = dict(
     level="model_checking", design="§4 C28",
-    text="The value dimension of the property for the C front end: over the C27 (constant expressions in initialisers, case labels, enumerators, array sizes) and C26 (#if expressions) template families with every integer literal symbolic over its full type range, any path of the real c_to_ir / preprocessor that ends in an exception other than ppci's CompilerError (struct.error, KeyError, ZeroDivisionError, AssertionError, OverflowError, UnboundLocalError ...) is a violation, with the literal values as the model.",
+    text="The value dimension of the property for the C front end: over the C27 (constant expressions in initialisers, case labels, enumerators, array sizes), bit-field WIDTH (a field of every integer type, 0-31 bits preceding it, loaded / stored / initialised) and C26 (#if expressions) template families with every integer literal symbolic over its full type range, any path of the real c_to_ir / preprocessor that ends in an exception other than ppci's CompilerError (struct.error, KeyError, ZeroDivisionError, AssertionError, OverflowError, UnboundLocalError ...) is a violation, with the literal values as the model.",
     note="PARTIAL CLAIM: the structural quantifier ('every syntactically valid input') is not encodable; only the stated template families are examined, in the dimension of their integer literal values, with no definedness premise. C3 and textual-IR front ends are outside. One known finding remains (struct.error for out-of-range constant values, same root cause as the C27 one).",
     technique=TECH)
 
